@@ -3,10 +3,11 @@ package main
 func init() {
 	register(&propInfo{
 		ID:          "C06",
-		Explanation: "Decides the prefix/append-only/purity clauses: (X.appendonly) in every function of the encode closure (Omit/Size/Append of all codecs, Marshal and their callees) the []byte parameter is never resliced or indexed and every returned buffer is that parameter extended by appends - for Marshal, every success return is data extended by appends or a fresh buffer created under data == nil; (X.ro) encoders store only into their own locals; (X.pure) the encode closure consults no clock, randomness, pool, shared table or package-level variable that is written after initialisation, so the bytes depend on the value and immutable codec configuration only; (T.delegate) the package-level Marshal is a pure delegate of the default instance.",
+		Explanation: "Decides the prefix/append-only/purity clauses: (X.appendonly) in every function of the encode closure (Omit/Size/Append of all codecs, Marshal and their callees) the []byte parameter is never resliced or indexed and every returned buffer is that parameter extended by appends - for Marshal, every success return is data extended by appends or a fresh buffer created under data == nil; (X.ro) encoders store only into their own locals; (X.pure) the encode closure consults no clock, randomness, pool, shared table or package-level variable that is written after initialisation, so the bytes depend on the value and immutable codec configuration only; (T.delegate) the package-level Marshal is a pure delegate of the default instance. (X.marshal.omit) every Append call in Marshal is dominated by the false outcome of the same codec's Omit: by-value and by-pointer arguments are written or omitted alike.",
 		NotDecided:  "By-value vs by-pointer equivalence (whether reflect stores a dynamic type indirectly in the interface is a runtime ABI fact: by-value pointer-shaped structs crash, described in DESIGN.md, no rule reports it); map-order determinism is excluded by the property.",
 		Assumptions: []string{"A4", "A5"},
 		Run: func(c *Ctx) {
+			ruleMarshalOmit(c)
 			// round 13: Marshal follows one level of pointer only
 			ruleMarshalDeref(c)
 			ruleAppendOnly(c)
